@@ -589,6 +589,8 @@ class MemOrchestrator(BaseOrchestrator):
         self, runner_id: str, start_time: datetime, end_time: datetime
     ) -> None:
         """Record the latest atomic service execution window for a runner."""
+        if runner_id not in self.runner_creation_time:
+            return  # a runner that never sent a heartbeat has no record to update
         self.runner_last_service_start[runner_id] = start_time
         self.runner_last_service_end[runner_id] = end_time
 
